@@ -19,13 +19,63 @@ def _lean_str_list(xs):
     return "[" + ", ".join('"%s"' % x for x in xs) + "]"
 
 
-def macro_instances(src, macro):
-    """Instantiation list `Macro(sym)` / `Macro(sym, flag)` outside the #define itself."""
-    out = []
-    for m in re.finditer(r"^\s*" + re.escape(macro) + r"\(([^)]*)\);", src, flags=re.M):
-        out.append([a.strip() for a in m.group(1).split(",")])
+def _list_macros(src):
+    """'X-macro' lists: `#define Name(X) X(a); X(b); Other(X)` -- macros whose body only applies their parameter (directly or
+    through another list macro).  Returns {name: [argument lists]} with nested lists expanded."""
+    defs = {}
+    for m in re.finditer(r"^[ \t]*#[ \t]*define[ \t]+(\w+)\((\w+)\)((?:.*\\\n)*.*)$", src, flags=re.M):
+        name, param, body = m.group(1), m.group(2), m.group(3).replace("\\\n", " ")
+        items = [x.strip() for x in body.split(";") if x.strip()]
+        parsed = []
+        ok = bool(items)
+        for it in items:
+            mm = re.fullmatch(r"(\w+)\s*\((.*)\)", it, flags=re.S)
+            if not mm:
+                ok = False; break
+            if mm.group(1) == param:
+                parsed.append(("arg", [a.strip() for a in mm.group(2).split(",")]))
+            elif mm.group(2).strip() == param:
+                parsed.append(("list", mm.group(1)))
+            else:
+                ok = False; break
+        if ok:
+            defs[name] = parsed
+    out = {}
+
+    def expand(name, seen=()):
+        if name in seen or name not in defs:
+            return None
+        res = []
+        for kind, v in defs[name]:
+            if kind == "arg":
+                res.append(v)
+            else:
+                sub = expand(v, seen + (name,))
+                if sub is None:
+                    return None
+                res += sub
+        return res
+    for n in defs:
+        e = expand(n)
+        if e is not None:
+            out[n] = e
     return out
 
+
+def macro_instances(src, macro):
+    """Instantiation list `Macro(sym)` / `Macro(sym, flag)` outside the #define itself, in source order; an instantiation
+    through an X-macro list (`ForEachOp(Macro);`) counts as the instantiations the list expands to."""
+    lists = _list_macros(src)
+    found = []
+    for m in re.finditer(r"^\s*" + re.escape(macro) + r"\(([^)]*)\);", src, flags=re.M):
+        found.append((m.start(), [[a.strip() for a in m.group(1).split(",")]]))
+    for ln, args in lists.items():
+        for m in re.finditer(r"^\s*" + re.escape(ln) + r"\(\s*" + re.escape(macro) + r"\s*\);", src, flags=re.M):
+            found.append((m.start(), args))
+    out = []
+    for _, a in sorted(found, key=lambda x: x[0]):
+        out += a
+    return out
 
 
 # ---- translator for the integer branch of convert_type_fundamental (C06) -------------------------------
@@ -96,7 +146,7 @@ def _parse_cond(c):
 def _parse_check_stmt(st):
     """one statement of a body: None for the `to_max` declaration, the check name for a dynamic_check"""
     st = st.strip()
-    if re.fullmatch(r"(?:const\s+)?auto\s+to_max\s*=\s*" + NL_ + r"max\(\)", st):
+    if re.fullmatch(r"(?:(?:constexpr|const|static)\s+)*(?:auto|T_To)(?:\s+const)?\s+to_max\s*=\s*" + NL_ + r"max\(\)", st):
         return None
     m = re.fullmatch(r"(?:detail::)?dynamic_check\((.*),\s*err_msg\)", st, flags=re.S)
     if not m:
